@@ -220,6 +220,15 @@ def deepEq (a b : List (Str × List (Option Str × List (Str × List Str)))) : B
 
 def step' (s : CState) (line : String) : CState × String :=
   match words line with
+  | ["eqrows", flav, _level, sa, sb, va, vb] =>
+    -- two one-column tables that may differ in their row count, compared at some level of the hierarchy:
+    -- `==` is the comparison of the plain nested mappings, i.e. of the two value lists.  Binary flavour: an
+    -- object built in memory never equals one read back (known finding eq-unserialised-encoding).
+    match decList va, decList vb with
+    | some a, some b =>
+      let r := if flav == "b" && sa != sb then false else a == b
+      (s, if r then "ok True" else "ok False")
+    | _, _ => (s, "bad-op")
   | ["lazyget", t, b, c] =>
     let c? : Option (Option Str) := if c == "~" then some none else (decStr c).map some
     match decStr t, decStr b, c? with
